@@ -17,6 +17,10 @@
 //	                                          banyand/trace streamSIDXTraceBatches over real sidx instances (one scratch sidx per
 //	                                          <inst>; inst = "-" or parts separated by ';', part = "key:traceID,..."; series 1)
 //	slimit <asc|desc> <off> <lim> <page>|...  stream row-path plan limit -> localIndexScan over storage pages ("-" or "ts,ts,..")
+//	djp    <stream|trace> <asc|desc> min:max,min:max,...   getDisjointParts on bare part time ranges -> groups of part ids
+//	squery <asc|desc> <min> <max> <maxElem> <sid>+.. <part>|..  banyand/stream tsResult over real mem parts; part = "sid:ts,..."
+//	miq    <asc|desc> <ent|fld> <seg>|<seg>..  measure index-mode ordered query over a real TSDB with one daily segment per
+//	                                          <seg> = "name:sort,..." (buildIndexQueryResult, segResultHeap, indexSortResult)
 //	mqr    <ts|sid> <asc|desc> <min> <max> <sid>+<sid>.. <part>|<part>..
 //	                                          banyand/measure queryResult over real mem parts (one per <part>),
 //	                                          part = "sid:ts:ver:val,..."; output = one "sid=ts:ver:val,.." per Pull
@@ -41,6 +45,7 @@ import (
 	"github.com/apache/skywalking-banyandb/banyand/measure"
 	"github.com/apache/skywalking-banyandb/banyand/observability"
 	"github.com/apache/skywalking-banyandb/banyand/protector"
+	bstream "github.com/apache/skywalking-banyandb/banyand/stream"
 	"github.com/apache/skywalking-banyandb/banyand/trace"
 	"github.com/apache/skywalking-banyandb/pkg/fs"
 	"github.com/apache/skywalking-banyandb/pkg/index"
@@ -507,6 +512,101 @@ func doSLimit(f []string) string {
 	return strings.Join(out, ",")
 }
 
+func doDJP(f []string) string {
+	if len(f) != 4 {
+		return "bad-op"
+	}
+	var ranges [][2]int64
+	for _, e := range strings.Split(f[3], ",") {
+		kv := strings.SplitN(e, ":", 2)
+		a, _ := strconv.ParseInt(kv[0], 10, 64)
+		b, _ := strconv.ParseInt(kv[1], 10, 64)
+		ranges = append(ranges, [2]int64{a, b})
+	}
+	var groups [][]uint64
+	if f[1] == "trace" {
+		groups = trace.VerifC09Disjoint(ranges, f[2] != "desc")
+	} else {
+		groups = bstream.VerifC09Disjoint(ranges, f[2] != "desc")
+	}
+	var gs []string
+	for _, g := range groups {
+		var ids []string
+		for _, id := range g {
+			ids = append(ids, strconv.FormatUint(id, 10))
+		}
+		gs = append(gs, strings.Join(ids, ","))
+	}
+	if len(gs) == 0 {
+		return "-"
+	}
+	return strings.Join(gs, "/")
+}
+
+func doSQuery(f []string) string {
+	if len(f) != 7 {
+		return "bad-op"
+	}
+	minTS, _ := strconv.ParseInt(f[2], 10, 64)
+	maxTS, _ := strconv.ParseInt(f[3], 10, 64)
+	maxElem, _ := strconv.Atoi(f[4])
+	var sids []uint64
+	for _, x := range strings.Split(f[5], "+") {
+		v, _ := strconv.ParseUint(x, 10, 64)
+		sids = append(sids, v)
+	}
+	var parts [][]bstream.VerifC09Elem
+	for _, spec := range strings.Split(f[6], "|") {
+		var rows []bstream.VerifC09Elem
+		for _, e := range strings.Split(spec, ",") {
+			kv := strings.SplitN(e, ":", 2)
+			sid, _ := strconv.ParseUint(kv[0], 10, 64)
+			ts, _ := strconv.ParseInt(kv[1], 10, 64)
+			rows = append(rows, bstream.VerifC09Elem{Sid: sid, Ts: ts})
+		}
+		parts = append(parts, rows)
+	}
+	res, err := bstream.VerifC09TSQuery(parts, sids, minTS, maxTS, f[1] != "desc", maxElem)
+	if err != nil {
+		return "ERR"
+	}
+	if len(res) == 0 {
+		return "-"
+	}
+	var out []string
+	for _, v := range res {
+		out = append(out, strconv.FormatInt(v, 10))
+	}
+	return strings.Join(out, ",")
+}
+
+func doMIQ(f []string) string {
+	if len(f) != 4 {
+		return "bad-op"
+	}
+	caseNo++
+	dir := filepath.Join(scratch, fmt.Sprintf("m%d", caseNo))
+	if err := os.MkdirAll(dir, 0o755); err != nil {
+		panic(err)
+	}
+	defer os.RemoveAll(dir)
+	var segs [][]measure.VerifC09Doc
+	for _, spec := range strings.Split(f[3], "|") {
+		var docs []measure.VerifC09Doc
+		for _, e := range strings.Split(spec, ",") {
+			kv := strings.SplitN(e, ":", 2)
+			v, _ := strconv.ParseInt(kv[1], 10, 64)
+			docs = append(docs, measure.VerifC09Doc{Name: kv[0], Sort: v})
+		}
+		segs = append(segs, docs)
+	}
+	out, err := measure.VerifC09IndexQuery(dir, segs, f[1] == "desc", f[2] == "fld")
+	if err != nil {
+		return "ERR " + strings.ReplaceAll(err.Error(), " ", "_")
+	}
+	return out
+}
+
 func handle(f []string) string {
 	if len(f) == 0 {
 		return "bad-op"
@@ -526,6 +626,12 @@ func handle(f []string) string {
 		return doMQR(f)
 	case "tsidx":
 		return doTSidx(f)
+	case "djp":
+		return doDJP(f)
+	case "squery":
+		return doSQuery(f)
+	case "miq":
+		return doMIQ(f)
 	case "slimit":
 		return doSLimit(f)
 	}
